@@ -37,7 +37,17 @@ MAP = {
     "C11_m3": [("C11", "rt.upd.w64")], "C11_m4": [("C11", "cmd.SFC_UPDATE_HEADER_NOW")],
     "C12_m3": [("C12", None)], "C12_m4": [("C12", "chanmask")],
     "C15_m3": [("C15", "readf.j")], "C15_m4": [("C15", "codec_init_close.gsm610")],
-    "C16_m3": [("C16", "setters_close")], "C16_m4": [("C16", None)],
+    "C16_m3": [("C16", "setters_close")], "C16_m4": [("C16", "sd2.parse.r80")],
+    "C02_m3": [("C02", "fwrap.double64.wr_int")], "C02_m4": [("C02", "fconv.float32.f2i_clip")],
+    "C08_m3": [("C08", None)], "C08_m4": [("C08", None), ("C05", "wrap.writef_float")],
+    "C09_m3": [("C09", "sd2.parse.r80")], "C09_m4": [("C09", "wrap.read_double")],
+    "C10_m3": [("C10", None)], "C10_m4": [("C10", None)],
+    "C13_m3": [("C13", None)], "C13_m4": [("C13", None)],
+    "C14_m3": [("C14", None)], "C14_m4": [("C14", "fileio"), ("C19", "fileio")],
+    "C17_m3": [("C17", "cmd.SFC_GET_BROADCAST_INFO")], "C17_m4": [("C17", "cmd.SFC_GET_LOG_INFO")],
+    "C18_m3": [("C18", ".fixed")], "C18_m4": [("C18", "calc.")],
+    "C19_m3": [("C19", None)], "C19_m4": [("C19", None)],
+    "C20_m3": [("C20", None)], "C20_m4": [("C20", None)],
     "R_g711_intmin": [("C20", "g711.H_ENCODE_I")], "R_d2sc_clip": [("C02", "sc.WR_D.norm1.clip1")], "R_cmdstr0": [("C17", "cmd.SFC_GET_LIB_VERSION")],
     "R_embedshort": [("C14", "embed_open.au.k4,embed_open.au.k1.")], "R_peak_double": [("C18", "peak.double64.double.ch1")], "R_sds_close": [("C01", "blk.sds16.flush.k10")],
     "R_htk_sr0": [("C10", "open_sr.htk")],
